@@ -119,6 +119,8 @@ def run(tier, seed):
     for cfg in dev_cfgs:
         for N in Ns:
             D = 2 if (tier == 'thorough' or N == 8) else 1
+            if tier == 'thorough' and N >= 400 and cfg not in dev_cfgs[:4]:
+                D = 1  # 2 deviations at N=400 (2701 placements x ~2500 queries) on four configurations only
             if cfg['cache_size'] == 0 and N > 8:
                 D = 0 if tier == 'quick' else 1  # every query recomputes from the root: ~5 s per execution
             if cfg['wrapper'] == 'tree' and N > 8 and tier == 'quick':
